@@ -19,7 +19,7 @@ P = {
          'SciPy minimize is a parameter of the model.'),
  'C06': ('proof', 'Every Jacobian the model supplies (cumulative bounds, state of charge, reserve, aggregate bounds, ratio, adaptor tiling, tree re-wrapping) is the gradient of its function and vanishes on variables the function does not read, for all sizes.',
          'Lossy storage away from the charge/discharge kink.'),
- 'C07': ('proof', 'Chord-form convexity over the bounds box for every convex-documented class under explicit acceptance hypotheses, all horizons; the two accepted non-convex corners (IDevice exponent in (0,1); SDevice c1 = 0 < c2) are proved non-convex by witnesses and carried as known findings.',
+ 'C07': ('proof', 'Chord-form convexity over the bounds box for every convex-documented class under explicit acceptance hypotheses, all horizons; gradient monotonicity (the first-order face of convexity) is proved from the chord form for the model gradients; three accepted non-convex corners (IDevice exponent in (0,1); SDevice c1 = 0 < c2; the lossy-storage feasible set) are proved non-convex by witnesses and carried as known findings.',
          'GDevice/ADevice polynomials restricted to convex ones as the property says.'),
  'C08': ('proof', 'cost(s,p) = cost(s,0) + sum s*p and deriv(s,p) = deriv(s,0) + p for every class and, by induction, every tree; model Hessians have no price argument.',
          'numpy price broadcasting is observed by correspondence.'),
